@@ -27,7 +27,7 @@ ID = 'C12'
 RULE = ('count tables 1..5 x 1..5 (values 1,2,3,5,8,13,40,1000,2^31+7,2^40+1; whole vectors zeroed, single-entry vectors, '
         'n chosen equal to a vector total in ~40% of the cases, else 1..max total+1) x layout recipe (dense/csr/csc/coo/lists/'
         'csr with explicit zeros/csr with reversed indices, then sort_order round trips, transposes, column/row access, nnz, copy) '
-        'x axis x {counts without replacement, with replacement, by id, refused arguments} x seed (recording Generator; the same '
+        'x axis x {counts without replacement, with replacement, by id, refused arguments} x call form {keywords, positional in the documented order n/axis/by_id/with_replacement/seed, biom.util.generate_subsamples} x seed (recording Generator; the same '
         'call is repeated with the plain integer seed and must give the same table); the arrays the kernel received are replayed '
         'through the array-level model and, on the unchanged tree, through the interpreted .pyx; thorough adds every 2x2 and 2x3 '
         'matrix over {0,1,2,3} x both axes x n in 1..4 and the statistical test (20000 seeds, chi-square against the exact '
@@ -110,6 +110,24 @@ def _ints(a):
 
 
 def _call(t, c, seed):
+    """the call forms a user has: keywords; positionally in the documented order
+    (n, axis, by_id, with_replacement, seed); the library's own wrapper biom.util.generate_subsamples,
+    which forwards (n, axis, by_id) positionally and gives no seed: np.random.default_rng is
+    replaced for the duration of that call so that the draws stay recordable"""
+    form = c.get('call', 'keyword')
+    if form == 'positional':
+        return t.subsample(c['n'], c['axis'], c['by_id'], c['wr'], seed)
+    if form == 'generate':
+        from biom.util import generate_subsamples
+        real = np.random.default_rng
+
+        def fake(s=None):
+            return seed if isinstance(seed, np.random.Generator) else real(seed)
+        np.random.default_rng = fake
+        try:
+            return next(generate_subsamples(t, c['n'], axis=c['axis'], by_id=c['by_id']))
+        finally:
+            np.random.default_rng = real
     return t.subsample(c['n'], axis=c['axis'], by_id=c['by_id'], with_replacement=c['wr'], seed=seed)
 
 
@@ -459,6 +477,9 @@ def gen_case(rng, kind=None, spec=None, axis=None, n=None):
                 n = rng.randint(1, 3)
     c = {'kind': kind, 'spec': spec, 'axis': axis, 'n': int(n), 'by_id': kind == 'by_id', 'wr': kind == 'replace',
          'seed': rng.randrange(2 ** 32)}
+    c['call'] = rng.choice(['keyword', 'keyword', 'positional', 'positional', 'generate'])
+    if c['call'] == 'generate' and kind not in ('counts', 'by_id'):
+        c['call'] = 'positional'          # the wrapper has no with_replacement option
     if kind == 'refuse':
         if rng.random() < 0.5:
             c['n'] = -rng.randint(1, 3)
@@ -513,7 +534,7 @@ def classify(c):
         return ['kind:stat']
     M = _mat(c['spec'])
     totals = M.sum(axis=1) if c['axis'] == 'observation' else M.sum(axis=0)
-    tags = ['kind:' + c['kind'], 'axis:' + c['axis'], 'layout0:' + str(c['spec']['layout'][0] if c['spec']['layout'] else 'dense'),
+    tags = ['kind:' + c['kind'], 'call:' + c.get('call', 'keyword'), 'axis:' + c['axis'], 'layout0:' + str(c['spec']['layout'][0] if c['spec']['layout'] else 'dense'),
             'shape:%dx%d' % M.shape]
     try:
         tags.append('repr:' + T.layout_info(T.build(c['spec'])))
